@@ -397,6 +397,21 @@ impl<'a> Gen<'a> {
         let op = match kind {
             "create_storage" if !full => Op::CreateStorage(self.new_path()),
             "create_storage_all" if !full => {
+                if self.cfg.invalid_names && self.rng.chance(1, 4) {
+                    // <existing storage>/<fresh valid>/<invalid>/<valid>: must be refused without
+                    // leaving the fresh ancestor behind
+                    let st = self.storages();
+                    let parent = st[self.rng.usize_below(st.len())].clone();
+                    let fresh = format!("fresh{}", self.rng.below(1000));
+                    let bad = (*self.rng.pick(&["a:b", "x!y", "back\\slash", "nnnnnnnnnnnnnnnnnnnnnnnnnnnnnnnnn"])).to_string();
+                    let mut names = parent;
+                    names.push(fresh);
+                    names.push(bad);
+                    if self.rng.chance(2, 3) {
+                        names.push("leaf".to_string());
+                    }
+                    return Some(Op::CreateStorageAll(join(&names)));
+                }
                 let mut p = self.new_path();
                 if self.rng.chance(1, 2) {
                     p.push('/');
